@@ -29,3 +29,13 @@ Theorem no_panic_unaffected : forall (V R : Type) (handle : pval V -> R) (outer 
   chain_with_recover V R handle outer inner (Returns r) = (Returns r, []).
 Proof. exact no_panic_unaffected_lemma. Qed.
 Print Assumptions no_panic_unaffected.
+
+(* the position of the recover interceptor "among 0..2 other interceptors" is an
+   instance of its position in an arbitrary declared list (Props/C16.v,
+   recover_takes_its_declared_place) *)
+Theorem recover_position_is_list_position :
+  forall (V R : Type) (handle : pval V -> R) (outer inner : nat) (core : hout V R),
+  chain_with_recover V R handle outer inner core
+  = run_chain V R handle (repeat IPass outer ++ IRecover :: repeat IPass inner) core.
+Proof. exact chain_with_recover_is_run_chain. Qed.
+Print Assumptions recover_position_is_list_position.
